@@ -552,3 +552,44 @@ Example ex_gater :
   dial_answer wiring_now [Block 1%N 0 10] 1%N 30 = false /\ dial_answer wiring_now [Block 1%N 0 10] 2%N 30 = true
   /\ secured_answer wiring_now [Block 1%N 7 10] 1%N 17 = false /\ secured_answer wiring_now [Block 1%N 7 10] 1%N 18 = true.
 Proof. repeat split; vm_compute; reflexivity. Qed.
+
+(* ---- the error-to-block-duration decision is the translation of the Go source -----------------------
+   [c17_inbound_block_fn] / [c17_outbound_block_fn] (gen/Generated.v) are produced on every run by the
+   translator of harness/extract from the switch over errors.Is alternatives in handleConnectReq and
+   Connect: arguments are the answers of the three errors.Is tests in source order, the result is the
+   duration handed to blockPeer (None: blockPeer is not called). *)
+Definition is_failure (f g : hs_failure) : bool :=
+  match f, g with SigFailed, SigFailed | AddrMismatch, AddrMismatch | LowStake, LowStake => true | _, _ => false end.
+Lemma inbound_block_translation f :
+  c17_inbound_block_fn (is_failure f SigFailed) (is_failure f AddrMismatch) (is_failure f LowStake)
+  = inbound_block_duration f.
+Proof. destruct f; reflexivity. Qed.
+Lemma outbound_block_translation f :
+  c17_outbound_block_fn (is_failure f SigFailed) (is_failure f AddrMismatch) (is_failure f LowStake)
+  = outbound_block_duration f.
+Proof. destruct f; reflexivity. Qed.
+(* for arbitrary answers of the three tests (an error may wrap several sentinel values): first match wins *)
+Lemma inbound_block_table s a k :
+  c17_inbound_block_fn s a k =
+  if s then Some 0 else if a then Some 0 else if k then Some 120000000000 else None.
+Proof. destruct s, a, k; reflexivity. Qed.
+Lemma outbound_block_table s a k :
+  c17_outbound_block_fn s a k =
+  if s then Some 0 else if a then Some 0 else if k then Some 300000000000 else None.
+Proof. destruct s, a, k; reflexivity. Qed.
+Example example_block_translation :
+  c17_inbound_block_fn false false true = Some 120000000000 /\ c17_outbound_block_fn false false false = None.
+Proof. split; reflexivity. Qed.
+
+Lemma block_duration_translation f :
+  c17_inbound_block_fn (is_failure f SigFailed) (is_failure f AddrMismatch) (is_failure f LowStake)
+    = inbound_block_duration f /\
+  c17_outbound_block_fn (is_failure f SigFailed) (is_failure f AddrMismatch) (is_failure f LowStake)
+    = outbound_block_duration f.
+Proof. split; [apply inbound_block_translation | apply outbound_block_translation]. Qed.
+Lemma block_table_translation s a k :
+  c17_inbound_block_fn s a k =
+    (if s then Some 0 else if a then Some 0 else if k then Some 120000000000 else None) /\
+  c17_outbound_block_fn s a k =
+    (if s then Some 0 else if a then Some 0 else if k then Some 300000000000 else None).
+Proof. split; [apply inbound_block_table | apply outbound_block_table]. Qed.
